@@ -324,6 +324,12 @@ def join_aux(source_name, source_key, source_delete,  # noqa: C901
                                    (spec['name'], source_spec['name']))
                 if copy_properties:
                     to_copy = copy.deepcopy(source_field)
+                    # a target row without a match (or a group holding nulls only) gets null here
+                    constraints = to_copy.get('constraints')
+                    if isinstance(constraints, dict) and 'required' in constraints:
+                        del constraints['required']
+                        if not constraints:
+                            del to_copy['constraints']
                 data_type = source_field['type']
                 if agg == 'median' and data_type == 'integer':
                     # the median of an even number of integers can be a fraction
